@@ -231,6 +231,8 @@ import sender
 PROFILES["C13"] = {"run": sender.run}
 import approval
 PROFILES["C12"] = {"run": approval.run}
+import robust
+PROFILES["C05"] = {"run": robust.run}
 import cmdalg
 PROFILES["C18"] = {"run": cmdalg.run}
 import conv
